@@ -423,6 +423,7 @@ func (rn *Runner) Step(in Input) error {
 		rn.strm = rn.stub.Last()
 		rn.strm.CloseEOF = true
 		rn.strm.BreakOnSendErr = true
+		rn.strm.EOFBreaksSend = true
 		rn.nrecv, rn.recvDead, rn.snd, rn.wantCalls = 0, false, "alive", 0
 		rn.Sink.Emit(Event{"ev": "cconnect", "ok": err == nil, "st": rn.state()})
 	case "q":
